@@ -485,6 +485,8 @@ def run_tuner(conf: dict, script: Script, scheduler=None, stop_criterion=None, v
         except AssertionError as e:
             kind, msg = "assertion", repr(e)
         except Exception as e:  # the code under test raised on a legal schedule
+            if getattr(e, "harness_failure", False):
+                raise
             kind, msg = "other", repr(e)
     ts = tuner.tuning_status
     cnt = [] if ts is None else [ts.num_trials_started, ts.num_trials_completed, ts.num_trials_failed,
@@ -512,7 +514,7 @@ TRACE_FIELDS = {
     "Fetch": ("n", "dead", "vals"), "Result": ("t", "r", "i", "d"), "StopTrial": ("t",), "PauseTrial": ("t",),
     "Remove": ("t",), "Complete": ("t",), "Error": ("t",), "CbComplete": ("t",), "Start": ("t", "from"),
     "Add": ("t",), "Resume": ("t",), "Delete": ("t",), "Exhausted": (), "StopCrit": ("b",), "Iter": (),
-    "StopAll": ("S",), "End": ("kind", "named", "cnt"), "Removable": ("S",), "Queue": ("s",), "Busy": ("S",),
+    "StopAll": ("S",), "End": ("kind", "named", "cnt"), "Removable": ("S",), "Queue": ("s",), "Busy": ("S",), "Loaded": ("t", "b"),
 }
 
 
